@@ -156,7 +156,7 @@ static void run_frac(Out& out, Rng& g, const DPoly& P, uint64_t max_points, int6
             fprintf(o, "meta %s ", meta);
             put_group(o, result);
         },
-        g_hangs >= 3 ? 2 : (g_thorough ? 40 : 10));
+        g_hangs >= 3 ? 5 : (g_thorough ? 60 : 30));
     if (res == "HANG") g_hangs++;
     Frame f;
     f.S = S;
@@ -218,7 +218,7 @@ static void run_slice(Out& out, Rng& g, const DPoly& P, const std::vector<double
                 put_group(o, bins[i]);
             }
         },
-        20);
+        60);
     Frame f;
     f.S = S;
     frame_add(f, P);
@@ -313,7 +313,7 @@ static void run_gds(Out& out, Rng& g, const std::vector<IPoly>& polys, uint64_t 
                 fprintf(o, "nocell 0");
             }
         },
-        30);
+        60);
     bool finished = res.compare(0, 5, "done ") == 0;
     std::vector<IPoly> pieces;
     bool integral = true, tags = true;
